@@ -41,6 +41,11 @@ def f4_segment(kind, opt, si=0):
         s_ = f4_segment('il', opt, si)
         s_['big'] = bool(si % 2 == 0)
         return s_
+    if kind == 'ones':      # three contiguous channels with the same number of values per chunk (all 1 for options (1, k))
+        objs = [(B, ['FULL', 'Int16', n]), (A, ['FULL', 'Int32', n] if present else ['NODATA']), (C, ['FULL', 'Int8', n])]
+        if not present and opt != 'nod':
+            objs = [o for o in objs if o[0] != A]
+        return G.seg(objs, chunks=chunks)
     if kind == 'int':
         objs = [(B, ['FULL', 'Int16', n + 1])]
         if present:
